@@ -180,7 +180,7 @@ fn gen_decision_op(cx: &mut Cx, _k: u64, h: &Arc<Honest>) -> Op {
 }
 
 pub fn run_c10(cx: &mut Cx) {
-    cx.preemptions_left = cx.ch.choose("preemptions", 3) as u32;
+    cx.preemptions_left = cx.ch.choose("preemptions", 5) as u32;
     let k_nodes = match cx.ch.weighted("nodes", &[2, 4, 3, 2]) { 0 => 1, 1 => 2 + cx.ch.choose("nodes_s", 3) as usize, 2 => 5 + cx.ch.choose("nodes_m", 4) as usize, _ => 16 };
     let nodes: Vec<NodeId> = (0..k_nodes).map(|i| cx.node(&format!("n{i}"))).collect();
     let suite = gen_suite(cx);
